@@ -15,6 +15,7 @@ import (
 	"context"
 	"crypto/x509"
 	"encoding/base64"
+	"encoding/hex"
 	"encoding/json"
 	"encoding/pem"
 	"errors"
@@ -43,6 +44,30 @@ var urls = []string{
 	// percent-escapes that differ in their hex digits only, a bare percent sign, and what a formatting routine would make of them
 	"http://a.example/crl%20C", "http://a.example/crl%21C", "http://a.example/%41.crl", "http://a.example/%42.crl", "http://a.example/100%", "http://a.example/100%%",
 	"http://a.example/crl%!C(MISSING)", "http://a.example/%s.crl", "http://a.example/%d.crl", "http://a.example/%v.crl",
+}
+
+// Two distinct 128-byte strings with the same MD5 value (the published Wang/Yu pair), bare and with a common suffix:
+// distinct URLs, so distinct entries, whatever became of a digest that was once thought to tell strings apart.
+var md5A, md5B = unhex("d131dd02c5e6eec4693d9a0698aff95c2fcab58712467eab4004583eb8fb7f89" + "55ad340609f4b30283e488832571415a085125e8f7cdc99fd91dbdf280373c5b" +
+	"d8823e3156348f5bae6dacd436c919c6dd53e2b487da03fd02396306d248cda0" + "e99f33420f577ee8ce54b67080a80d1ec69821bcb6a8839396f9652b6ff72a70"),
+	unhex("d131dd02c5e6eec4693d9a0698aff95c2fcab50712467eab4004583eb8fb7f89" + "55ad340609f4b30283e4888325f1415a085125e8f7cdc99fd91dbd7280373c5b" +
+		"d8823e3156348f5bae6dacd436c919c6dd53e23487da03fd02396306d248cda0" + "e99f33420f577ee8ce54b67080280d1ec69821bcb6a8839396f965ab6ff72a70")
+
+func unhex(s string) string {
+	b, err := hex.DecodeString(s)
+	if err != nil {
+		panic(err)
+	}
+	return string(b)
+}
+
+// near pairs: two distinct URLs that a careless key derivation would most plausibly merge; a sequence that draws one
+// draws its partner too
+var nearPairs = [][2]string{
+	{md5A, md5B}, {md5A + "http://crl.example.com/ca.crl", md5B + "http://crl.example.com/ca.crl"},
+	{"http://crl.example/" + strings.Repeat("p", 3000) + "/a.crl", "http://crl.example/" + strings.Repeat("p", 3000) + "/b.crl"},
+	{"http://a.example/%41.crl", "http://a.example/%42.crl"}, {"http://a.example/crl", "http://a.example/crl/"}, {"http://a.example/crl", "http://A.example/crl"},
+	{"http://a.example/crl%2Fx", "http://a.example/crl%2fx"}, {"http://a.example/crl", "http://a.example/crl?"}, {strings.Repeat("x", 70000), strings.Repeat("x", 69999) + "y"},
 }
 
 type entryModel struct {
@@ -100,6 +125,14 @@ func main() {
 		o := offs[k%len(offs)]
 		pool = append(pool, crlT{lib.MintCRL(int64(k+1), now.Add(o), (k%7)*300), o > 0})
 	}
+	// next-update instants far outside the range a 64-bit nanosecond count can hold (1678..2262): expired centuries ago, or
+	// "never" as RFC 5280 spells it (99991231235959Z)
+	for k, y := range []int{2, 1000, 1500, 1601, 1677, 1899, 2263, 2300, 5000, 9999} {
+		t := time.Date(y, 12, 31, 23, 59, 59, 0, time.UTC)
+		for j := 0; j < 2; j++ {
+			pool = append(pool, crlT{lib.MintCRL(int64(500+2*k+j), t, j*900), y > 2100})
+		}
+	}
 
 	nSeq := r.N(2000, 100000)
 	lib.Parallel(nSeq, 16, func(si int) {
@@ -133,6 +166,11 @@ func main() {
 		var my []string
 		for k := 0; k < 2+rng.Intn(5); k++ {
 			my = append(my, urls[rng.Intn(len(urls))])
+		}
+		if si%3 == 0 {
+			np := nearPairs[(si/3)%len(nearPairs)]
+			my = append(my[:1], np[0], np[1])
+			r.Event("sequences-over-a-near-pair")
 		}
 		var trace []string
 		for op := 0; op < nops; op++ {
